@@ -112,6 +112,7 @@ fn gen_case(seed: u64, i: u64, corpus: &[String], regr: &[String]) -> (String, S
                 (format!("number-{how}"), s)
             }
         }
+        18 if r.chance(1, 3) => ("deep-type-parens".into(), inputs::deep_type_parens(&mut r)),
         _ => {
             let (s, d) = inputs::nesting(&mut r, 5);
             (format!("nesting-{}", if d >= 90 { "90-100" } else if d >= 50 { "50-89" } else { "1-49" }), s)
@@ -469,9 +470,18 @@ fn main() {
                     // plain bracket of the same depth?
                     let unparen: String = src.chars().map(|c| match c { '(' => '[', ')' => ']', c => c }).collect();
                     let unspawn = src.replace("@{", "{").replace("! [", "[");
+                    // `(@t)` -> `(#t)`: a function type in the same place (parsed once per level)
+                    let unprocess = src.replace("(@", "(#");
                     let fast = |s: &str| !matches!(probe(s, Duration::from_secs(3)), Probe::Timeout);
-                    let cause = if unparen != src && fast(&unparen) {
-                        "nested-parentheses"
+                    let cause = if unprocess != src && fast(&unprocess) {
+                        "nested-process-type"
+                    } else if unparen != src && fast(&unparen) {
+                        // type position (repaired 33df1c7: must not happen again) or or-pattern
+                        if src.contains('\'') {
+                            "nested-parentheses-in-type"
+                        } else {
+                            "nested-parentheses-in-pattern"
+                        }
                     } else if unspawn != src && fast(&unspawn) {
                         "unclosed-spawn-or-select-nest"
                     } else {
